@@ -306,6 +306,54 @@ theorem c43_filter_src_next_calls (p : Int → Bool) (l : LSt) (st : SrcSt) (hd 
     rw [hn]
     simpa using this
 
+/-- Any composition, any state: the drain loop of ReadAll makes at most one source `Next` call beyond
+the source elements it consumes (the call that finds the end). -/
+theorem c43_drain_src_calls (sh : Shape) : ∀ (fuel : Nat) (st : State sh),
+    mu sh (drain sh fuel st).1 ≤ mu sh st + 1 := by
+  intro fuel
+  induction fuel with
+  | zero => intro st; simp [drain]
+  | succ fuel ih =>
+    intro st
+    have h := next_mu sh st
+    cases hn : (next sh st).2 with
+    | false => simpa [drain, hn] using h.2
+    | true =>
+      have := ih (next sh st).1
+      rw [h.1 hn] at this
+      simpa [drain, hn] using this
+
+theorem c43_readAll_src_calls (sh : Shape) (st : State sh) :
+    (source sh (readAll sh st).1).nexts + (source sh (readAll sh st).1).rest.length ≤
+      (source sh st).nexts + (source sh st).rest.length + 1 := by
+  have := c43_drain_src_calls sh (remaining sh st + 1) st
+  simpa [readAll, source_close, mu] using this
+
+/-- No read-ahead at any depth: draining `Limit(inner, lim)` with `lim > 0` over ANY inner composition,
+when the limit is what stops it, makes exactly as many source `Next` calls as source elements consumed
+— no call is made to look past the last yielded value. -/
+theorem c43_limit_any_src_calls (lim : Int) (hl : lim > 0) (s : Shape) : ∀ (fuel : Nat) (l : LSt) (i : State s),
+    ((l.count + (drain (.limit lim s) fuel (l, i)).2.length : Nat) : Int) ≥ lim →
+    mu (.limit lim s) (drain (.limit lim s) fuel (l, i)).1 = mu (.limit lim s) (l, i) := by
+  intro fuel
+  induction fuel with
+  | zero => intro l i _; simp [drain]
+  | succ fuel ih =>
+    intro l i hge
+    by_cases hc : lim > 0 ∧ (l.count : Int) ≥ lim
+    · simp [drain, next, hc]
+    · have hc' : ¬ (l.count : Int) ≥ lim := fun h => hc ⟨hl, h⟩
+      cases hn : (next s i).2 with
+      | false =>
+        simp [drain, next, hc, hn] at hge
+        omega
+      | true =>
+        have hk := (next_mu s i).1 hn
+        simp [drain, next, hc, hn] at hge ⊢
+        have := ih { l with count := l.count + 1 } (next s i).1 (by simp; omega)
+        simp [mu, source] at this hk ⊢
+        omega
+
 /-! Non-vacuity: concrete, non-trivial instances (a depth-3 composition with a positive limit). -/
 example : (readAll (.limit 2 (.filter (fun x => x % 2 == 0) (.map (· + 1) .src)))
     (fresh [1, 2, 3, 4, 5, 6] _)).2 = [2, 4] := by decide
@@ -319,5 +367,8 @@ example : JIt.run 4 (JIt.fresh ([] : List Int) [some [1, 2, 3], some [4, 5], som
 example : (source _ (readAll (.limit 2 .src) (fresh [1, 2, 3, 4, 5] _)).1).nexts = 2 := by decide
 example : (source _ (readAll (.limit 7 .src) (fresh [1, 2, 3] _)).1).nexts = 4 := by decide
 example : (next (.filter (fun x => x % 2 == 0) .src) (({} : LSt), fresh [1, 3, 4, 5] .src)).1.2.nexts = 3 := by decide
+example : let sh := Shape.limit 2 (.filter (fun x => x % 2 == 0) (.map (· + 1) .src))
+    let r := drain sh 7 (fresh [1, 2, 3, 4, 5, 6] sh)
+    (((0 + r.2.length : Nat) : Int) ≥ 2) ∧ mu sh r.1 = 6 ∧ (source sh r.1).nexts = 3 := by decide
 
 end C43
